@@ -21,6 +21,9 @@ def quo (a b : Int) : Option Int := if b = 0 then none else some (a.tdiv b)
 def toDec (a : Int) : Int := a * P18
 end SInt
 
+/-- Go's `%` on native integers: truncated remainder; a zero divisor is a run-time panic. -/
+def I64.rem (a b : Int) : Option Int := if b = 0 then none else some (a.tmod b)
+
 /-- `osmomath.BigDecFromDec(Mut)`: ×10^18, exact, no check. -/
 def BigDec.ofDec (d : Int) : Int := d * Pdiff
 
